@@ -312,6 +312,8 @@ class _FakeUnpickler:
     def __init__(self, gene, reads):
         self.objs = [("g", gene)] + [("r", r) for r in reads]
         self.i = 0
+        # as NormalTmpFileAssignmentLoader without a reference: ReadAssignmentLoader.get_next reads it (fix f48e223)
+        self.chr_record = None
 
     def has_next(self):
         return self.i < len(self.objs)
